@@ -14,7 +14,7 @@ lean_modules = ["Driver.Types"]
 rule = ("one script = one process = one registry history: 't reset' then registrations ('t basic size', 't generic size [if]', "
         "'t iface name', 't meta name') interleaved with lookups by id ('t traits|itraits|mtraits id', 't size id' for built-ins, "
         "'t sweep' = every id 0..0x1100 plus all named entries) and by name ('t named name len', 't alias text'). Stream 1 "
-        "(exhaustive): every built-in id, every id sweep on the fresh registry, every integer size 0..17. Stream 2: fill each of "
+        "(exhaustive): every built-in id, every id sweep on the fresh registry, every integer size 0..17, every message format byte 0..255 and type id -2..299 through mpt_msgvalfmt_*. Stream 2: fill each of "
         "the four ranges to capacity -1/0/+2 (64/48/1791/1792), chunk boundaries at multiples of 30, name length 0..5, duplicate / "
         "cross-kind / built-in / short-name collisions, length-limited lookups around the stored length. Stream 3: random "
         "histories. non-trivial = a history in which an entry registered earlier is found again (by id, by name or in a sweep) "
@@ -50,7 +50,6 @@ def corpus(chk):
 
 BUILTIN = [1, 4, 5, 8, 9, 11, 24, 25, 26] + [ord(c) for c in "cbynqiuxtfdes"] + \
           [ord(c) - 0x60 + 0x40 for c in "cbynqiuxtfdes"] + [0x40] + list(range(0x80, 0x89)) + [0x100, 0x800, 0x801, 0x802, 0x803]
-OPTIONAL = [0xb, 0x40]     # TypeBufferPtr, TypeVector: known findings, queried by dedicated scripts only
 CAP = {"basic": 64, "iface": 48, "meta": 1791, "generic": 1792}
 BASE = {"basic": 0xc0, "iface": 0x90, "meta": 0x101, "generic": 0x900}
 
@@ -83,10 +82,11 @@ def scripts(tier, seed, scale=1):
     for i in BUILTIN:
         out.append(S("fresh:size:%d" % i, ["t size %d" % i]))
     out.append(S("fresh:int", ["t int %d" % k for k in range(0, 18)] + ["t uint %d" % k for k in range(0, 18)]))
+    # message value formats: every format byte, every scalar-range type id (exhaustive)
+    out.append(S("fresh:msgfmt:type", ["t mtype %d" % f for f in range(256)]))
+    out.append(S("fresh:msgfmt:size", ["t msize %d" % f for f in range(256)]))
+    out.append(S("fresh:msgfmt:code", ["t mcode %d" % t for t in range(-2, 300)]))
     ids = list(range(0, 0x1101)) if thorough else sorted(set(BUILTIN + list(range(0, 0x110)) + [0x7ff, 0x800, 0x804, 0x8ff, 0x900, 0xfff, 0x1000, 0x1100]))
-    ids = [i for i in ids if i not in OPTIONAL]
-    for i in OPTIONAL:
-        out.append(S("fresh:traits:opt:%d" % i, ["t traits %d" % i]))
     for k in range(0, len(ids), 64):
         out.append(S("fresh:traits:%d" % k, ["t %s %d" % (op, i) for i in ids[k:k + 64] for op in ("traits", "itraits", "mtraits")]))
     # ---- stream 2: capacities and chunk boundaries
@@ -161,8 +161,6 @@ def scripts(tier, seed, scale=1):
                     pool.append(nm)
             elif kind == "lookup":
                 i = r.choice([r.randrange(0, 0x1101), 0x80 + r.randrange(0, 0x40), 0x100 + r.randrange(0, 40), 0xc0 + r.randrange(0, 0x40), 0x900 + r.randrange(0, 40)])
-                if i in OPTIONAL:
-                    i += 1
                 ops.append("t %s %d" % (r.choice(["traits", "traits", "itraits", "mtraits"]), i))
             elif kind == "name":
                 nm = r.choice(pool)
